@@ -123,9 +123,17 @@ func factImpliesNonEmpty(cf CondFact, v ssa.Value) bool {
 func nonEmptyConstBytes(v ssa.Value) bool {
 	switch x := v.(type) {
 	case *ssa.Convert:
-		if s, ok := constString(x.X); ok {
-			return len(s) > 0
+		// []byte(s) for s a non-empty constant, or a choice among non-empty constants
+		leaves := phiLeaves(x.X)
+		if len(leaves) == 0 {
+			return false
 		}
+		for _, l := range leaves {
+			if s, ok := constString(l); !ok || len(s) == 0 {
+				return false
+			}
+		}
+		return true
 	case *ssa.Const:
 		if s, ok := constString(x); ok {
 			return len(s) > 0
